@@ -550,6 +550,10 @@ fn full_alphabet() -> Vec<Op> {
             v.push(Op::Resize(n, x));
         }
     }
+    // a fill value whose bytes all differ (a byte-wise fill would be visible)
+    for n in [2, c / 2 + 1, c] {
+        v.push(Op::Resize(n, 0x0123_4567_89AB_CDEF));
+    }
     v.push(Op::Normalize);
     for x in [0, 1, u64::MAX] {
         v.push(Op::AddSmall(x));
@@ -568,7 +572,7 @@ fn core_alphabet() -> Vec<Op> {
         Op::Pop,
         Op::Extend(c / 2),
         Op::Extend(c - 1),
-        Op::Resize(c, 0),
+        Op::Resize(c, 0x0123_4567_89AB_CDEF),
         Op::Resize(c + 1, 0),
         Op::Resize(1, 0),
         Op::Normalize,
